@@ -134,6 +134,12 @@ def run(tier, replay=None):
         res.cov["converged_cases"] = int(kv["converged"]); res.cov["oracle_inconclusive"] = int(kv["oracle_inconclusive"])
         res.cov["traces_validated_against_impl"] = int(kv["cases"]) if kv["mismatches"] == "0" else 0
         by = {c.split()[0]: c for c in cs}
+        # object histories (drv_quad.cpp): every case is repeated on an object re-initialised to the same size after an in-place
+        # transform (_rs) and on one object re-initialised for every case (_ra); they are cases of their own for the model and the property
+        for c in cs:
+            by[c.split()[0] + "_rs"] = c + "   [object re-initialised to the same size after a transform]"
+            by[c.split()[0] + "_ra"] = c + "   [one object re-initialised for every case]"
+        res.cov["object_history_cases"] = 2 * len(cs)
         for c in cs[:2] + cs[-1:]:
             res.sample({"case(id type points tol kind zt pt k z c start end)": c})
         mm = [l for l in out.splitlines() if l.startswith("MISMATCH")]
